@@ -237,6 +237,9 @@ def parse_rvalue(s):
         return Rvalue('len', [parse_place(m.group(2))])
     if m and m.group(1) == 'CopyForDeref':
         return Rvalue('use', [Operand('copy', place=parse_place(m.group(2)))])
+    if s.startswith('&raw const '):
+        # a raw pointer to a place: modelled as a shared reference (only its identity is ever observed: ptr::eq)
+        return Rvalue('ref', [parse_place(s[len('&raw const '):].lstrip())], False)
     if s.startswith('&raw '):
         return Rvalue('unsupported', extra=s)
     if s.startswith('&'):
